@@ -50,6 +50,28 @@ Section Protocol.
     then let new := match f3 FRes with Some s => parse s | None => [] end in
          (Refined (match acta with Some a => insert_after_unit a new | None => new end), f3, ins)
     else (Failed, upd_fs (upd_fs f3 FRes (f3 FBak)) FBak None, ins).          (* restore_shx_file *)
+
+  (* refine(cycles, backup_before) as repaired (ab4702f, and the ACTA repair): with backup_before=False no backup is taken and - after a
+     failed run - none is restored, also not one that an earlier run left behind; the model in memory after the call is the result (success)
+     or the model the run started from, with its ACTA instruction put back behind UNIT (failure) *)
+  Definition memory_after_failure (lines1 : list str) : list str :=
+    match find_acta lines1 with
+    | Some a => insert_after_unit a (without_acta lines1)
+    | None => lines1
+    end.
+
+  Definition refine_b (backup : bool) (cycles : option nat) (lines : list str) (f : fs) : outcome * fs * str * list str :=
+    let lines1 := match cycles with Some n => set_cycles n lines | None => lines end in
+    let acta := find_acta lines1 in
+    let ins := render (without_acta lines1) in
+    let f1 := upd_fs f FIns (Some ins) in
+    let f2 := if backup then upd_fs (upd_fs f1 FBak (f1 FRes)) FSave (f1 FRes) else f1 in
+    let '(code, f3) := shelxl f2 in
+    if result_ok code f3
+    then let new := match f3 FRes with Some s => parse s | None => [] end in
+         let m := match acta with Some a => insert_after_unit a new | None => new end in
+         (Refined m, f3, ins, m)
+    else (Failed, (if backup then upd_fs (upd_fs f3 FRes (f3 FBak)) FBak None else f3), ins, memory_after_failure lines1).
 End Protocol.
 
 (* ---- crash points: every state the file system passes through during refine() ----
